@@ -2021,7 +2021,8 @@ where
         // If this is our first connection to the network, we just ask for a fixed backlog
         // of messages to get us started.
         let since = if let Some(last) = self.last_online_at {
-            Timestamp::from(last - SUBSCRIBE_BACKLOG_DELTA)
+            // Nb. `last` comes from a stored announcement and can be arbitrarily small.
+            Timestamp::from(last) - SUBSCRIBE_BACKLOG_DELTA.as_millis() as u64
         } else {
             (*now - INITIAL_SUBSCRIBE_BACKLOG_DELTA).into()
         };
